@@ -149,12 +149,13 @@ def check_trace(cg, case):
     if cg.functionCount != len(fl):
         raise Violation('functionCount = %d but %d nodes recorded' % (cg.functionCount, len(fl)))
     for pos, f in enumerate(fl):
-        if f.ID != pos:
-            raise Violation('node at position %d has ID %r' % (pos, f.ID))
+        if getattr(f, 'ID', None) != pos:
+            raise Violation('node at position %d has ID %r' % (pos, getattr(f, 'ID', None)))
         for a in f.args:
             if isinstance(a, Function) and a is not f:
-                if a.ID is None or a.ID >= pos:
-                    raise Violation('node %d (%s) has an argument with ID %r (not recorded earlier)' % (pos, f.func.__name__, a.ID))
+                aid = getattr(a, 'ID', None)
+                if aid is None or aid >= pos or fl[aid] is not a:
+                    raise Violation('node %d (%s) has an argument that was not recorded earlier in this graph (ID %r)' % (pos, f.func.__name__, aid))
     names = [f.func.__name__ for f in fl]
     exp = expected_trace(case)
     if names != exp:
